@@ -11,7 +11,7 @@ HERE = os.path.dirname(os.path.dirname(os.path.abspath(__file__)))
 
 HOOK_COMMITS = ["296d2e2"]
 FIX_COMMITS = ["c3309bb", "818282c", "d254f8d", "e48a860", "14c9b1b", "2de9305", "b1e1837", "3e873b6", "69019bf", "6843529", "0e8f22c",
-               "379cf04", "336672a", "b83760a"]
+               "379cf04", "336672a", "b83760a, dfae326"]
 
 CLAIMS = {
     "C01": dict(
